@@ -48,6 +48,14 @@ def gen_case(rng):
         x, y = x[:, 0], y[:, 0]
     K = int(rng.integers(1, 16))
     bound = gens.pick(rng, [np.inf, np.inf, 1.0, 0.3, 0.05])
+    if rng.random() < .12:
+        # integer-typed features (sample indices, counts): unsigned, or a narrow signed type used over its whole range
+        dt = gens.pick(rng, [np.uint8, np.uint16, np.int16, np.int8])
+        lo, hi = (0, np.iinfo(dt).max) if np.dtype(dt).kind == 'u' else (np.iinfo(dt).min + 1, np.iinfo(dt).max)
+        x = rng.integers(lo, hi, x.shape, endpoint=True).astype(dt)
+        y = rng.integers(lo, hi, y.shape, endpoint=True).astype(dt)
+        bound = float(np.inf if rng.random() < .5 else (hi - lo) / 8.0)
+        ties = True          # (integer features: exact ties in distance are possible, the uncontested-neighbour rule does not apply)
     same = bool(rng.random() < .06)      # the very same array object as both feature sets (every row then has itself as its nearest candidate)
     return {'kind': 'kdt', 'x': x, 'y': (x if same else y), 'K': K, 'bound': float(bound), 'ties': ties, 'positional': bool(rng.random() < .3), 'same_object': same}
 
